@@ -150,8 +150,14 @@ func VerifC01Chain() {
 		secret = selBytes(s, pool)
 		// a next secret is a 32-byte seed; anything of another length (for instance a 64-byte
 		// expanded key seed||public) is not a proof of knowledge and must be rejected
-		if n := [...]int{32, 64, 33, 0}[vChoose("secret-len", 4)]; n != 32 {
+		if k := vChoose("secret-len", 5); k != 0 {
+			n := [...]int{32, 64, 33, 0, 64}[k]
 			secret = vBytes("oddsecret", n)
+			if k == 4 {
+				// what anybody can assemble: 32 bytes of their choice followed by the last announced public key
+				// (the layout of an expanded private key)
+				secret = cat(vWide("oddseed", 32), key[m])
+			}
 			badSecretLen = true
 			vLabel("next secret of length != 32")
 		} else {
